@@ -196,9 +196,31 @@ NOP_STMT = re.compile(r"^\(\s*\(void\)\s*\(0\)\s*\)$|^\(void\)\s*0$|^$")
 ASSERT_STMT = re.compile(r"^\(\s*\(?\s*(.*?)\s*\)?\s*\?\s*\(void\)\s*\(0\)\s*:\s*__assert_fail\s*\(.*\)\s*\)$")
 
 
+def unwrap(t, drop_void=True):
+    """normal form of a statement / expression text: `(jso)->` is `jso->`, enclosing parentheses
+    and a leading (void) cast are dropped (macros such as JC_REF_DEC(jso) expand to
+    `((void)__sync_sub_and_fetch(&(jso)->_ref_count, 1))`)"""
+    t = re.sub(r"\(\s*jso\s*\)\s*->", "jso->", t.strip())
+    while True:
+        if t.startswith("(") and match_close(t, 0, "(", ")") == len(t) - 1:
+            t = t[1:-1].strip()
+            continue
+        m = re.match(r"^\(\s*void\s*\)\s*", t)
+        if drop_void and m:
+            t = t[m.end():].strip()
+            continue
+        return t
+
+
+ATOMIC_READ = re.compile(r"^(?:__sync_(?:add_and_fetch|sub_and_fetch|fetch_and_add|fetch_and_sub|or_and_fetch|fetch_and_or)"
+                         r"\s*\(\s*&\s*%s\s*,\s*0\s*\)|__atomic_load_n\s*\(\s*&\s*%s\s*,\s*\w+\s*\))$" % (RCF, RCF))
+
+
 def rc_expr(e):
     """ops computing expression e into reg (or None when e is not an rc expression)"""
-    e = e.strip()
+    e = unwrap(e, drop_void=False)
+    if ATOMIC_READ.match(e):
+        return ["AtomicLoad RC"]
     m = re.match(r"^__sync_sub_and_fetch\s*\(\s*&\s*%s\s*,\s*(\d+)\s*\)$" % RCF, e)
     if m:
         return ["AtomicSubFetch RC %s" % m.group(1)]
@@ -214,10 +236,13 @@ def rc_expr(e):
 
 def rc_update_stmt(t):
     """ops of a simple statement that updates the count, result unused; None if not one"""
-    m = re.match(r"^(?:\(void\)\s*)?__sync_add_and_fetch\s*\(\s*&\s*%s\s*,\s*(\d+)\s*\)$" % RCF, t)
+    t = unwrap(t)
+    if ATOMIC_READ.match(t):
+        return ["AtomicLoad RC"]            # a read whose value is discarded
+    m = re.match(r"^__sync_add_and_fetch\s*\(\s*&\s*%s\s*,\s*(\d+)\s*\)$" % RCF, t)
     if m:
         return ["AtomicAdd RC %s" % m.group(1)]
-    m = re.match(r"^(?:\(void\)\s*)?__sync_sub_and_fetch\s*\(\s*&\s*%s\s*,\s*(\d+)\s*\)$" % RCF, t)
+    m = re.match(r"^__sync_sub_and_fetch\s*\(\s*&\s*%s\s*,\s*(\d+)\s*\)$" % RCF, t)
     if m:
         return ["AtomicSub RC %s" % m.group(1)]
     if re.match(r"^\+\+\s*%s$" % RCF, t) or re.match(r"^%s\s*\+\+$" % RCF, t):
@@ -255,6 +280,7 @@ def cas_once_stmt(t, reg_var):
     ignored, no retry), v being the local that holds the value just loaded"""
     if reg_var is None:
         return None
+    t = unwrap(t)
     m = re.match(r"^(?:\(void\)\s*)?__sync_(?:val|bool)_compare_and_swap\s*\(\s*&\s*%s\s*,\s*%s\s*,\s*%s\s*([+-])\s*(\d+)\s*\)$"
                  % (RCF, re.escape(reg_var), re.escape(reg_var)), t)
     if not m:
@@ -289,8 +315,8 @@ def translate_get(body):
             if m and count_rc(t) == 0:
                 continue                      # an assert on locals only
             if m:
-                # an assert that survived preprocessing reads the field non-atomically
-                ops.append("Load RC")
+                # an assert that survived preprocessing reads the field
+                ops.append("AtomicLoad RC" if re.search(r"__sync_\w+\s*\([^()]*\(?\s*jso\s*\)?\s*->\s*_ref_count\s*,\s*0\s*\)", t) else "Load RC")
                 reg_var = None
                 used += count_rc(t)
                 shown.append(t[:80] + " ...")
@@ -348,7 +374,7 @@ def translate_put(body):
             if m and count_rc(t) == 0:
                 continue
             if m:
-                ops.append("Load RC")
+                ops.append("AtomicLoad RC" if re.search(r"__sync_\w+\s*\([^()]*\(?\s*jso\s*\)?\s*->\s*_ref_count\s*,\s*0\s*\)", t) else "Load RC")
                 reg_var = None
                 used += count_rc(t)
                 shown.append(t[:80] + " ...")
@@ -620,6 +646,7 @@ HEADER = """(* ThreadImpl.v — GENERATED by tr/atomics.py on every run of ./che
      AtomicAdd c d / AtomicSub c d   __sync_add_and_fetch / __sync_sub_and_fetch, result unused
      AtomicSubFetch c d              reg := __sync_sub_and_fetch(&c, d)
      Load c                          reg := c   (plain read)
+     AtomicLoad c                    reg := c   (atomic read, e.g. __sync_add_and_fetch(&c, 0))
      Store c d                       c := reg + d   (plain write; `++c` is Load c; Store c 1)
      BranchDestroyIfResultZero n     `if (reg > 0) return 0;` otherwise the destroy path runs
      IfUnset [body]                  `if (reg == -1) { body }`
